@@ -177,6 +177,7 @@ func cmdVerify(args []string) int {
 			return 2
 		}
 		ex.Verbose = *verbose
+		ex.CurProp = pf.ID
 		replayProg, replayDB = prog, db
 		for _, f := range v.Functions {
 			key := expandKey(f)
@@ -190,6 +191,17 @@ func cmdVerify(args []string) int {
 				continue
 			}
 			funcsDone = append(funcsDone, f+" ["+v.Tags+"]")
+			// vacuity guard per function: a listed function none of whose obligations counts for this
+			// property (its contract's props() do not name it) would be "verified" without checking anything
+			kept := 0
+			for _, o := range ex.Obls[before:] {
+				if propMatches(o.Props, pf.ID) {
+					kept++
+				}
+			}
+			if kept == 0 {
+				undecided = append(undecided, fmt.Sprintf("[%s] %s is listed under %s but contributes no obligation to it (contract props() do not name the property?)", v.Tags, f, pf.ID))
+			}
 			for _, o := range ex.Obls[before:] {
 				if len(pf.Variants) > 1 {
 					o.Name += "@" + v.Tags
